@@ -241,8 +241,8 @@ def generate(rng, tier):
             for ms in mss:
                 if len(scheds) > 40 and quick:
                     use = rng.sample(scheds, 40)
-                elif len(scheds) > 800:
-                    use = rng.sample(scheds, 800)
+                elif len(scheds) > 500:
+                    use = rng.sample(scheds, 500)
                 else:
                     use = scheds
                 for s in use:
@@ -264,6 +264,11 @@ def generate(rng, tier):
         else:
             s = ["classrank", [[kk, rng.randrange(math.factorial(min(c, 30)))] for kk, c in sorted(counts.items())]]
         yield _case(nodes, edges, ms, s)
+    # 3. outside the property's domain (correspondence only): max_size = 1 labels no edge, a negative
+    #    max_size means unbounded (`max_size > 0` is false)
+    for _ in range(40 if quick else 400):
+        nodes, edges = _random_graph(rng)
+        yield _case(nodes, edges, rng.choice([1, -1, -3]), ["rank", rng.randrange(10**12)])
 
 
 # ------------------------------------------------------------------ implementation side
@@ -400,7 +405,7 @@ def compare(case, impl_obs, model):
 
 
 def check_calls(case, impl_obs):
-    if _is_exc(impl_obs):
+    if _is_exc(impl_obs) or case["ms"] == 1:
         return []
     rows = []
     for u, v, lab in impl_obs["rows"]:
@@ -416,6 +421,8 @@ PARTS = ["same vertices", "same edges, each once", "every edge labelled",
 
 
 def check_verdict(case, impl_obs, raws):
+    if case["ms"] == 1:
+        return None  # size limit 1 is outside the property (0 or >= 2); the correspondence still applies
     if _is_exc(impl_obs):
         return f"implementation raised {impl_obs[1]} on a simple loop-free graph with max_size {case['ms']}"
     for u, v, lab in impl_obs["rows"]:
